@@ -29,6 +29,14 @@ class ExtractionError(AnalysisError):
     pass
 
 
+class NoReturn(ExtractionError):
+    """The end of a block was reached without a return."""
+
+
+class RaisedError(ExtractionError):
+    """The extracted code raises for the given constants (a guard fired)."""
+
+
 # ---------------------------------------------------------------------------- values
 
 
@@ -282,6 +290,11 @@ class TermEval:
             if isinstance(v, ast.Constant):
                 parts.append(str(v.value))
             else:
+                try:
+                    parts.append(str(self.const(v.value, env, fn)))
+                    continue
+                except (TermEval.NotConst, ExtractionError):
+                    pass
                 val = self.ev(v.value, env, fn, depth)
                 parts.append(self._to_text(val, v.value))
         return Opaque("".join(parts))
@@ -596,6 +609,149 @@ class TermEval:
             return self.app(name, args)
         raise ExtractionError(f"sympy.{name} outside grammar")
 
+    # ------------------------------------------------- constant propagation
+    class NotConst(Exception):
+        pass
+
+    def _to_py(self, v):
+        if isinstance(v, RF) and v.is_const():
+            c = v.const_value()
+            if c.denominator == 1:
+                return int(c)
+        if isinstance(v, Opaque) and isinstance(v.key, (str, bool)) or (isinstance(v, Opaque) and v.key is None):
+            return v.key
+        if isinstance(v, Tup):
+            return tuple(self._to_py(i) for i in v.items)
+        if isinstance(v, (int, str, bool, tuple, frozenset)):
+            return v
+        raise TermEval.NotConst
+
+    def const(self, node: ast.AST, env: dict, fn: FuncInfo | None, depth: int = 0):
+        """Evaluate a Python-level expression over constants (ints, strings, tuples, sets).
+        Raises NotConst if it involves anything symbolic."""
+        NC = TermEval.NotConst
+        if isinstance(node, ast.Constant):
+            if isinstance(node.value, (int, str, bool)) or node.value is None:
+                return node.value
+            raise NC
+        if isinstance(node, ast.Name):
+            if node.id in env:
+                return self._to_py(env[node.id])
+            raise NC
+        if isinstance(node, ast.Tuple):
+            return tuple(self.const(e, env, fn, depth) for e in node.elts)
+        if isinstance(node, ast.Set):
+            return frozenset(self.const(e, env, fn, depth) for e in node.elts)
+        if isinstance(node, ast.UnaryOp) and isinstance(node.op, ast.Not):
+            return not self.const(node.operand, env, fn, depth)
+        if isinstance(node, ast.BoolOp):
+            vals = [self.const(v, env, fn, depth) for v in node.values]
+            return all(vals) if isinstance(node.op, ast.And) else any(vals)
+        if isinstance(node, ast.BinOp):
+            a, b = self.const(node.left, env, fn, depth), self.const(node.right, env, fn, depth)
+            if isinstance(a, frozenset) and isinstance(b, frozenset):
+                if isinstance(node.op, ast.Sub):
+                    return a - b
+                if isinstance(node.op, ast.BitOr):
+                    return a | b
+                if isinstance(node.op, ast.BitAnd):
+                    return a & b
+            if isinstance(a, int) and isinstance(b, int) and isinstance(node.op, (ast.Add, ast.Sub, ast.Mult)):
+                return {ast.Add: a + b, ast.Sub: a - b, ast.Mult: a * b}[type(node.op)]
+            raise NC
+        if isinstance(node, ast.Compare) and len(node.ops) == 1:
+            a, b = self.const(node.left, env, fn, depth), self.const(node.comparators[0], env, fn, depth)
+            op = node.ops[0]
+            if isinstance(op, ast.Eq):
+                return a == b
+            if isinstance(op, ast.NotEq):
+                return a != b
+            if isinstance(op, (ast.In, ast.NotIn)):
+                try:
+                    r = a in b
+                except TypeError:
+                    r = False
+                return r if isinstance(op, ast.In) else not r
+            if isinstance(op, ast.LtE):
+                return a <= b
+            if isinstance(op, ast.Lt):
+                return a < b
+            if isinstance(op, ast.GtE):
+                return a >= b
+            if isinstance(op, ast.Gt):
+                return a > b
+            if isinstance(op, ast.Is):
+                return a is b
+            if isinstance(op, ast.IsNot):
+                return a is not b
+            raise NC
+        if isinstance(node, ast.JoinedStr):
+            out = []
+            for v in node.values:
+                if isinstance(v, ast.Constant):
+                    out.append(str(v.value))
+                else:
+                    out.append(str(self.const(v.value, env, fn, depth)))
+            return "".join(out)
+        if isinstance(node, ast.Call):
+            f = node.func
+            if isinstance(f, ast.Name) and f.id in {"sorted", "tuple", "list", "set", "frozenset", "str", "int", "len", "next", "iter", "map"} and not node.keywords:
+                args = [self.const(a, env, fn, depth) if not (f.id == "map" and i == 0) else a for i, a in enumerate(node.args)]
+                if f.id == "sorted":
+                    return tuple(sorted(args[0]))
+                if f.id in {"tuple", "list"}:
+                    return tuple(args[0])
+                if f.id in {"set", "frozenset"}:
+                    return frozenset(args[0])
+                if f.id == "str":
+                    return str(args[0])
+                if f.id == "int":
+                    return int(args[0])
+                if f.id == "len":
+                    return len(args[0])
+                if f.id == "iter":
+                    return tuple(sorted(args[0])) if isinstance(args[0], frozenset) else tuple(args[0])
+                if f.id == "next":
+                    seq = args[0]
+                    if isinstance(seq, frozenset):
+                        seq = tuple(sorted(seq))
+                    if len(seq) != 1:
+                        raise ExtractionError("next(iter(...)) of a constant collection that is not a singleton: the picked element is not determined")
+                    return seq[0]
+                if f.id == "map" and isinstance(node.args[0], ast.Name) and node.args[0].id == "str":
+                    return tuple(str(x) for x in args[1])
+                raise NC
+            if isinstance(f, ast.Attribute) and f.attr == "join" and len(node.args) == 1:
+                sep = self.const(f.value, env, fn, depth)
+                return sep.join(self.const(node.args[0], env, fn, depth))
+            if fn is not None and depth < 4:
+                callee = self.tree.resolve(fn.module, f, fn)
+                if callee in self.tree.funcs:
+                    g = self.tree.funcs[callee]
+                    if all(isinstance(st, (ast.Assign, ast.Return, ast.Expr)) for st in g.node.body):
+                        cargs = [self.const(a, env, fn, depth) for a in node.args]
+                        cenv = {p: (RF.const(v) if isinstance(v, int) and not isinstance(v, bool) else Opaque(v) if isinstance(v, (str, bool)) or v is None else v) for p, v in zip(g.params, cargs)}
+                        for st in g.node.body:
+                            if isinstance(st, ast.Expr):
+                                continue
+                            if isinstance(st, ast.Assign) and isinstance(st.targets[0], ast.Name):
+                                cenv[st.targets[0].id] = self.const(st.value, cenv, g, depth + 1)
+                            elif isinstance(st, ast.Return):
+                                return self.const(st.value, cenv, g, depth + 1)
+            raise NC
+        raise NC
+
+    def _from_py(self, v):
+        if isinstance(v, bool) or v is None or isinstance(v, str):
+            return Opaque(v)
+        if isinstance(v, int):
+            return RF.const(v)
+        if isinstance(v, tuple):
+            return Tup([self._from_py(x) for x in v])
+        if isinstance(v, frozenset):
+            return v
+        raise ExtractionError(f"constant of type {type(v).__name__}")
+
     # -------------------------------------------------------------- functions
     def bind_params(self, fn: FuncInfo, args: list, kwargs: dict, skip_first: bool = False) -> dict:
         a = fn.node.args
@@ -644,23 +800,49 @@ class TermEval:
                 if st.value is None:
                     raise ExtractionError("bare return")
                 return self.ev(st.value, env, fn, depth)
+            if isinstance(st, ast.Raise):
+                raise RaisedError(f"{fn.qual}: raises `{unparse(st.exc)[:60] if st.exc is not None else ''}`")
             if isinstance(st, ast.AnnAssign):
                 if st.value is None:
                     continue
                 self._assign(st.target, self.ev(st.value, env, fn, depth), env)
                 continue
             if isinstance(st, ast.Assign):
-                val = self.ev(st.value, env, fn, depth)
+                try:
+                    val = self.ev(st.value, env, fn, depth)
+                except ExtractionError as exc:
+                    if isinstance(exc, RaisedError):
+                        raise
+                    try:
+                        val = self._from_py(self.const(st.value, env, fn))
+                    except TermEval.NotConst:
+                        raise exc from None
                 for t in st.targets:
                     self._assign(t, val, env)
                 continue
             if isinstance(st, ast.If):
+                # a test over constants (finite index domain) is decided by constant propagation
+                try:
+                    decided = self.const(st.test, env, fn)
+                except TermEval.NotConst:
+                    decided = None
+                if isinstance(decided, bool):
+                    block = st.body if decided else st.orelse
+                    if any(isinstance(s_, ast.Raise) for s_ in block):
+                        exc = next(s_ for s_ in block if isinstance(s_, ast.Raise))
+                        raise RaisedError(f"{fn.qual}: raises `{unparse(exc.exc)[:60] if exc.exc is not None else ''}` for these constants")
+                    if block:
+                        try:
+                            return self.eval_body(block, env, fn, depth)
+                        except NoReturn:
+                            pass
+                    continue
                 # tolerated: guard clauses that only raise (argument validation)
                 if all(isinstance(s, ast.Raise) or (isinstance(s, ast.Assign) and _only_strings(s)) for s in st.body) and not st.orelse:
                     continue
                 raise ExtractionError(f"{fn.qual}: branching body (`if {unparse(st.test)[:50]}`) is outside the straight-line grammar")
             raise ExtractionError(f"{fn.qual}: statement {type(st).__name__} outside the straight-line grammar")
-        raise ExtractionError(f"{fn.qual}: no return reached")
+        raise NoReturn(f"{fn.qual}: no return reached")
 
     def _assign(self, target, val, env):
         if isinstance(target, ast.Name):
